@@ -9,6 +9,6 @@ Open Scope string_scope.
 
 Definition c07_unproved : list string :=
   [ "FindResponse"; "FindUniqueResponse"; "LockingAndxRequest"; 
-    "NegotiateResponse"; "OpenAndxRequest"; "QueryInformation2Response"; "ReadRawRequest"; "RenameRequest";
+    "NegotiateResponse"; "OpenAndxRequest"; "ReadRawRequest"; 
     "SessionSetupAndxRequest"; "SessionSetupAndxResponse"; "SetInformationRequest";
     "TransactionRequest"; "WriteAndCloseRequest"; "WriteAndxRequest"; "WriteRawRequest"; "WriteRequest" ].
